@@ -47,8 +47,10 @@ func vh_C02_chain_pathitems() { vC02Run(vWorldChains(2), vParam("chain_orders", 
 func vh_C02_imports_params()    { vC02Run(vWorldImports(0), vParam("import_orders", 0) == 1) }
 func vh_C02_imports_responses() { vC02Run(vWorldImports(1), vParam("import_orders", 0) == 1) }
 
-func vh_C02_imports_item() { vC02Run(vWorldImports(2), vParam("import_orders", 0) == 1) }
-func vh_C02_ops()          { vC02Run(vWorldOps(false), false) }
+func vh_C02_imports_item()   { vC02Run(vWorldImports(2), vParam("import_orders", 0) == 1) }
+func vh_C02_imports_cyclic() { vC02Run(vWorldImports(3), false) }
+func vh_C02_keywords()       { vC02Run(vWorldKeywords(), false) }
+func vh_C02_ops()            { vC02Run(vWorldOps(false), false) }
 
 func vh_C02_ports()     { vC02Run(vWorldPorts(), true) }
 func vh_C02_casetwins() { vC02Run(vWorldCaseTwins(), true) }
